@@ -24,7 +24,8 @@ EXPLANATION = (
     "is written."
     ' Also: the encoder is lossless and the stored bound is the untransformed pc.min/pc.max; (R7) appends cannot re-number field ids (C11.R1).'
     ' R1/R2 decide by abstract interpretation of the CFG of one loop iteration over the order-type domain (guard clauses and flag variables are followed), not by the syntactic shape of the branch.'
-    " (R8) the read path keeps no schema memo (C02.R6); (R9) who may produce bounds: every DataFile's bounds come from _compute_column_bounds, the manifest decoder or a copy.")
+    " (R8) the read path keeps no schema memo (C02.R6); (R9) who may produce bounds: every DataFile's bounds come from _compute_column_bounds, the manifest decoder or a copy."
+    ' R4 also requires the encoding to be unaltered between producer and manifest (no second codec, function-value codec passing followed); R9 is strict: one bounds producer.')
 NOT_DECIDED = ("pc.min/max and Arrow comparison semantics (e.g. int64 beyond 2^53 against a float literal); end-to-end "
                "pruned-vs-unpruned equality at run time")
 ASSUMPTIONS = ["values of one column are totally ordered except float NaN; pc.min/pc.max ignore NULL and NaN rows"]
